@@ -51,6 +51,15 @@ OptionsOK(e) ==
 
 \* magnitude: the solver was given 4^sa G, 2^(sa+sb) B (penalties, start and absolute options scaled with them) and
 \* the logged solution was divided by 2^(sb-sa); by NNLS!ScaleInvariant it must be the solution of the unscaled problem
+\* StrictErrorStateSpoke: the CALLER asked NumPy to raise on floating-point events (np.errstate(...="raise")) or turned
+\* warnings into errors, and the call ended in exactly that exception.  The property does not quantify over the caller's
+\* error state (under NumPy's defaults the same call returns normally and is judged in full), so such an event is accepted
+\* as it is; every other exception, and every exception under the "default" / "ignore" settings, is a rejection.
+StrictErrorStateSpoke(e) ==
+    /\ e.raised
+    /\ \/ e.err = "raise" /\ e.exc = "FloatingPointError"
+       \/ e.err = "warnerr" /\ e.exc = "RuntimeWarning"
+
 ExactInDomain(e) ==
     /\ e.solver \in Solvers
     /\ e.sa \in MagSet /\ e.sb \in MagSet
@@ -78,7 +87,7 @@ ExactClose(e) ==
 
 ExactVerdict(e) ==
     IF ~ExactInDomain(e) THEN "InDomain"
-    ELSE IF e.raised THEN "Raised"
+    ELSE IF e.raised THEN (IF StrictErrorStateSpoke(e) THEN "ok" ELSE "Raised")
     \* UtU and UtM (and the start, except hals' documented-mutable V) are bit-identical after the call
     ELSE IF e.mutG \/ e.mutB \/ (e.solver # "hals" /\ e.mutS) THEN "InputUntouched"
     ELSE IF e.size # Len(e.B) * Len(e.G) \/ ~IsCols(e.x, Len(e.B), Len(e.G)) \/ ~IsCols(e.xf, Len(e.B), Len(e.G)) THEN "Shape"
@@ -105,7 +114,7 @@ KktInDomain(e) ==
     /\ e.cond \in 1..CondMax
 
 KktVerdictT(e, ZT, KT) ==
-    IF e.raised THEN "Raised"
+    IF e.raised THEN (IF StrictErrorStateSpoke(e) THEN "ok" ELSE "Raised")
     ELSE IF e.mutG \/ e.mutB \/ (e.solver # "hals" /\ e.mutS) THEN "InputUntouched"
     ELSE IF e.cb = "true3" THEN (IF e.x = e.xref /\ e.xf = e.xreff THEN "ok" ELSE "CallbackStop")
     ELSE IF e.size # e.k * e.n \/ ~IsCols(e.x, e.k, e.n) \/ ~IsCols(e.g, e.k, e.n) THEN "Shape"
